@@ -11,7 +11,10 @@ with what each resolver does (the "world" folded into the operation):
                                     resolver returns when it is deferred
                "nn": bool,          the field type is non-null
                "b": body}
-    body    = ["int", z] | ["null"] | ["err"] | ["exn", x]
+    body    = ["int", z] | ["null"] | ["err"] | ["err", variant] | ["exn", x]
+                                   variant 0..5: which ResolverError class / instance is raised
+                                   (plain, with extensions, subclasses with one-argument /
+                                   multi-positional / keyword-only constructors, a shared instance)
             | ["snull"]            the resolver returns a non-null value of the custom scalar Sc
                                    that *serialises to null* (completes to null)
             | ["sbad", x]          ... a value whose serialisation raises (RuntimeError tagged x
@@ -89,6 +92,47 @@ SHAPES = {  # shape name -> (GraphQL type, non-null?, kind)
     "ls": ("[Sc]", False, "lsc"), "lsn": ("[Sc]!", True, "lsc"),
     "lS": ("[Sc!]", False, "lscn"), "lSn": ("[Sc!]!", True, "lscn"),
 }
+
+
+# ---- the family of resolver-error classes a failing resolver draws from (["err", variant]);
+# the behaviour tree only says "fails with a resolver error"
+class OneArgError(ResolverError):
+    def __init__(self, code):
+        super().__init__("resolver error: code %s" % code, extensions={"code": code})
+        self.code = code
+
+
+class InsufficientFunds(ResolverError):
+    """multi-positional domain constructor computing message and extensions"""
+
+    def __init__(self, balance, requested):
+        super().__init__("resolver error: balance %d < %d" % (balance, requested),
+                         extensions={"balance": balance, "requested": requested})
+        self.balance, self.requested = balance, requested
+
+
+class KeywordOnlyError(ResolverError):
+    def __init__(self, *, reason, retry_after=0):
+        super().__init__("resolver error: %s" % reason, extensions={"retry_after": retry_after})
+        self.reason = reason
+
+
+SHARED_ERROR = ResolverError("resolver error (shared instance)", extensions={"shared": True})
+N_ERR_VARIANTS = 6
+
+
+def make_error(variant):
+    if variant == 1:
+        return ResolverError("resolver error", extensions={"code": "E1", "detail": [1, 2]})
+    if variant == 2:
+        return OneArgError(42)
+    if variant == 3:
+        return InsufficientFunds(10, 25)
+    if variant == 4:
+        return KeywordOnlyError(reason="busy", retry_after=3)
+    if variant == 5:
+        return SHARED_ERROR
+    return ResolverError("resolver error")
 
 
 class ScNull:
@@ -375,7 +419,7 @@ class _Run:
         if b[0] == "null":
             return None
         if b[0] == "err":
-            raise ResolverError("resolver error")
+            raise make_error(b[1] if len(b) > 1 else 0)
         if b[0] == "exn":
             raise RuntimeError("x%d" % b[1])
         if b[0] == "snull":
@@ -551,7 +595,7 @@ def _result_obs(res):
         return {"fail_other": "BadData", "msg": "response data contains a %s" % e}
     errs = []
     for e in res.errors:
-        kind = "nn" if "is not nullable" in e.message else ("res" if e.message == "resolver error" else "other:" + e.message[:80])
+        kind = "nn" if "is not nullable" in e.message else ("res" if e.message.startswith("resolver error") else "other:" + e.message[:80])
         errs.append([[_seg(x) for x in (e.path or [])], kind])
     return {"data": data, "errors": errs}
 
